@@ -102,6 +102,79 @@ def register3(E):
         return base_next(it)
     E.it_next = it_next3
 
+    # ---- str family (byte lists; lengths concrete, bytes possibly symbolic)
+    def pat_bytes(p):
+        p = deref(p)
+        if isinstance(p, int) or z3.is_bv(p): return [p]
+        return list(sbytes(p))
+    def match_at(s, i, pat):
+        if i < 0 or i + len(pat) > len(s): return False
+        cs = []
+        for x, y in zip(s[i:i + len(pat)], pat):
+            if isinstance(x, int) and isinstance(y, int):
+                if x != y: return False
+            else: cs.append(x == y)
+        return True if not cs else (cs[0] if len(cs) == 1 else z3.And(*cs))
+    STR = r'^core::str::<impl str>::'
+    @R(STR + r'strip_prefix::<(&str|char|&String|&&str)>$')
+    def _(e, c, a):
+        s, p = sbytes(a[0]), pat_bytes(a[1])
+        return SOME(sref(s[len(p):])) if e.branch(match_at(s, 0, p)) else NONE()
+    @R(STR + r'strip_suffix::<(&str|char|&String|&&str)>$')
+    def _(e, c, a):
+        s, p = sbytes(a[0]), pat_bytes(a[1])
+        return SOME(sref(s[:len(s) - len(p)])) if e.branch(match_at(s, len(s) - len(p), p)) else NONE()
+    @R(STR + r'(starts_with|ends_with)::<(&str|char|&String|&&str)>$')
+    def _(e, c, a):
+        s, p = sbytes(a[0]), pat_bytes(a[1])
+        return e.branch(match_at(s, 0 if 'starts_with' in c else len(s) - len(p), p))
+    @R(STR + r'contains::<(&str|char|&String|&&str)>$')
+    def _(e, c, a):
+        s, p = sbytes(a[0]), pat_bytes(a[1])
+        for i in range(0, len(s) - len(p) + 1):
+            if e.branch(match_at(s, i, p)): return True
+        return False
+    @R(STR + r'(find|rfind)::<(&str|char|&String|&&str)>$')
+    def _(e, c, a):
+        s, p = sbytes(a[0]), pat_bytes(a[1])
+        rng_ = range(0, len(s) - len(p) + 1)
+        for i in (reversed(rng_) if '::rfind' in c else rng_):
+            if e.branch(match_at(s, i, p)): return SOME(i)
+        return NONE()
+    @R(STR + r'(split_once|rsplit_once)::<(&str|char|&String|&&str)>$')
+    def _(e, c, a):
+        s, p = sbytes(a[0]), pat_bytes(a[1])
+        rng_ = range(0, len(s) - len(p) + 1)
+        for i in (reversed(rng_) if 'rsplit_once' in c else rng_):
+            if e.branch(match_at(s, i, p)): return SOME(Agg([sref(s[:i]), sref(s[i + len(p):])], 'tup'))
+        return NONE()
+    @R(STR + r'(split|rsplit|split_terminator)::<(&str|char|&String|&&str)>$')
+    def _(e, c, a):
+        s, p = sbytes(a[0]), pat_bytes(a[1]); out = []; start = 0; i = 0
+        while i + len(p) <= len(s):
+            if e.branch(match_at(s, i, p)): out.append(sref(s[start:i])); i += len(p); start = i
+            else: i += 1
+        out.append(sref(s[start:]))
+        if 'split_terminator' in c and not s[start:]: out.pop()
+        if '::rsplit::' in c: out.reverse()
+        return It('list', l=out, pos=0)
+    @R(STR + r'(to_owned|to_string)$|^<str as ToString>::to_string$|^<String as From<&str>>::from$|^<str as ToOwned>::to_owned$|^<&str as Into<String>>::into$|^<String as Clone>::clone$')
+    def _(e, c, a): return Vec(list(sbytes(a[0])), 'String')
+    @R(STR + r'bytes$')
+    def _(e, c, a): return It('list', l=list(sbytes(a[0])), pos=0)
+    @R(r'^\[&str\]::concat$|^core::slice::<impl \[&str\]>::concat::<str>$|^<\[&str\] as Concat<str>>::concat')
+    def _(e, c, a):
+        out = []
+        v = deref(a[0]); items = v.items() if isinstance(v, SliceRef) else (v.f if isinstance(v, Agg) else v.l)
+        for x in items: out.extend(sbytes(x))
+        return Vec(out, 'String')
+    @R(r'^(std::string::)?String::push_str$')
+    def _(e, c, a): deref(a[0]).l.extend(sbytes(a[1])); return UNIT
+    @R(r'^(std::string::)?String::push$')
+    def _(e, c, a): deref(a[0]).l.append(a[1]); return UNIT
+    @R(r'^(std::string::)?String::(new|with_capacity)$')
+    def _(e, c, a): return Vec([], 'String')
+
     @R(r'Option::<.*>::map_or::<')
     def _(e, c, a): return a[1] if a[0].v == 'None' else e.closure_call(a[2], [a[0].f[0]])
     @R(r'Option::<.*>::map_or_else::<')
